@@ -318,13 +318,14 @@ func cmdCheck(args []string) int {
 				fmt.Fprintf(os.Stderr, "harness %s not found in SSA\n", f.Name)
 				return 2
 			}
-			cfg := JobCfg{MaxPaths: 20000, MaxSteps: 3000000, MaxVisits: 600, MaxFan: 64, QTimeout: 5 * time.Second, Solvers: []string{"z3new", "cvc5int", "z3"}, Workers: 8, Witnesses: 1, Tier: *tier}
+			cfg := JobCfg{MaxPaths: 20000, MaxSteps: 3000000, MaxVisits: 600, MaxFan: 64, QTimeout: 5 * time.Second, Solvers: []string{"z3new", "cvc5int", "z3"}, Workers: 8, Witnesses: 1, Tier: *tier, Deadline: 240 * time.Second}
 			if *tier == "thorough" {
 				cfg.MaxPaths = 400000
 				cfg.QTimeout = 30 * time.Second
 				cfg.Confirm = true
 				cfg.Witnesses = 3
 				cfg.MaxSteps = 20000000
+				cfg.Deadline = 40 * time.Minute
 			}
 			d := f.Dirs
 			if *tier == "thorough" {
@@ -339,6 +340,11 @@ func cmdCheck(args []string) int {
 			cfg.MaxVisits = atoiDef(d["visits"], cfg.MaxVisits)
 			cfg.MaxFan = atoiDef(d["fan"], cfg.MaxFan)
 			cfg.Witnesses = atoiDef(d["witnesses"], cfg.Witnesses)
+			if s := d["deadline"]; s != "" {
+				if dd, err := time.ParseDuration(s); err == nil {
+					cfg.Deadline = dd
+				}
+			}
 			if s := d["solvers"]; s != "" {
 				cfg.Solvers = strings.Split(s, ",")
 			}
